@@ -178,6 +178,8 @@ var h15Flagged = []CharRecipe{
 	{Length: 2, Allow: Digits | Symbols, Exclude: Ambiguous, ExcludeChars: "abc!"},
 	{Length: 2, Allow: All, Exclude: Ambiguous},
 	{Length: 2, Allow: Digits, Require: Uppers, Exclude: Uppers | Digits},
+	{Length: 2, Allow: Lowers, RequireSets: []string{"aeiou"}}, // one class allowed, nothing excluded, an overlapping required set
+	{Length: 2, Allow: Digits, RequireSets: []string{"13579"}},
 }
 
 var h15ReqSets = [][]string{
@@ -404,10 +406,23 @@ func H18() {
 	MaxTrials = vLen("maxtrials", 1, 2)
 	MaxFailRate = 1.0
 	vSummary(true)
-	kind := vChoice("kind", 9)
+	kind := vChoice("kind", 11)
 	var p *Password
 	var err error
 	switch kind {
+	case 9: // a separator function whose output is longer than any token the index can encode
+		wl, _ := NewWordList([]string{"uno", "dos"})
+		r := NewWLRecipe(2, wl)
+		r.SeparatorFunc = NewSFFunction(CharRecipe{Length: 256, AllowChars: "§¶"})
+		p, err = r.Generate()
+	case 10: // a long run of rejected candidates within one call (the full default retry budget)
+		MaxTrials = 200
+		r := CharRecipe{Length: 1, AllowChars: "§", RequireSets: []string{"¶"}}
+		p, err = r.Generate()
+		alpha, _, _ := h02Ref(r)
+		for k := 0; k < vDrawCount(); k++ {
+			vSecret(alpha[vDraw(k)])
+		}
 	case 0: // character recipe with a requirement: accepted, retried or exhausted
 		r := CharRecipe{Length: 2, AllowChars: "§¶", Require: Digits, Exclude: Ambiguous}
 		p, err = r.Generate()
